@@ -82,7 +82,7 @@ def run_case(case):
     rng = np.random.default_rng(case["seed"])
     n, mask, bk = case["n"], case["mask"], case["backend"]
     bad = [bool(x) for x in mask]
-    spec = seqgen.random_spec(rng, n=n, basis="ising", dmin=7.5, spread=0.6, local=bool(rng.random() < 0.6), slm=bool(rng.random() < 0.2 and n >= 3), max_dur=100, min_dur=30,
+    spec = seqgen.random_spec(rng, n=n, basis="ising", dmin=7.5, spread=0.6, local=bool(rng.random() < 0.6), slm=bool(rng.random() < 0.45 and n >= 3), max_dur=100, min_dur=30,
                               n_pulses=int(rng.integers(1, 3)), amp_max=8.0, det_max=8.0, shuffle_ids=True, wf_kinds=["const", "ramp", "blackman"], delays=False)
     ids = [a[0] for a in spec["atoms"]]
     good_ids = [q for q, b in zip(ids, bad) if not b]
@@ -129,7 +129,7 @@ def run_case(case):
     cnt = {k: 0 for k in REQUIRED}
     cnt["rejected"] = 0
     viol, worst = [], {}
-    times = [0.5, 1.0]
+    times = [0.2, 0.5, 0.8, 1.0]  # several: an SLM mask that ends between two of them changes the Hamiltonian the observables must use
     shots = 50
     M = emu_sv if bk == "sv" else emu_mps
     B = emu_sv.SVBackend if bk == "sv" else emu_mps.MPSBackend
